@@ -392,6 +392,157 @@ def node_rules(btext, utext):
     return store_l, store_r, vr, un_store, ur[False], ur[True]
 
 
+def scalar_nodes(btext, repo):
+    """BinaryOpScalarLeft / BinaryOpScalarRight (an expression combined with a passive scalar): where the one
+    expression child is evaluated and stored, the template arguments with which the policy's calc_right / calc_left
+    is entered, the static counts, and the list of policies each wrapper is instantiated with.  Also struct Scalar
+    (Expression.h), the stand-in for the passive operand inside the policy rules."""
+    out = {}
+    for cls, child, other, calc in (("BinaryOpScalarLeft", "right", "left", "calc_right"), ("BinaryOpScalarRight", "left", "right", "calc_left")):
+        m = re.search(r"struct\s+%s\b" % cls, btext)
+        if not m:
+            die("struct %s not found" % cls)
+        body, _ = block_after(btext, m.start())
+        body = strip_comments(body)
+        C = child[0].upper()
+        # static counts, as written
+        want_static = {
+            "is_active": "%s::is_active&&!is_same<Type,bool>::value" % C,
+            "store_result": "is_active*Op::store_result",
+            "n_active": "expr_cast<%s>::n_active" % C,
+            "n_local_scratch": "store_result",
+            "n_scratch": "n_local_scratch+%s::n_scratch" % C,
+            "n_arrays": "%s::n_arrays" % C,
+        }
+        for name, want in want_static.items():
+            mm = re.search(r"static\s+const\s+(?:int|bool)\s+%s\s*=([^;]*);" % name, body)
+            if not mm:
+                die("%s: static %s not found" % (cls, name))
+            got = re.sub(r"\s+", "", mm.group(1))
+            if got != want:
+                die("%s: static %s = %s, modelled as %s" % (cls, name, got, want))
+        # children stored
+        stores, has2 = set(), False
+        for params, inner in functions(body, "my_value_at_location_store_"):
+            c = re.search(r"%s\s*\.template\s+value_at_location_store_\s*<([^>]*)>" % child, inner)
+            if not c:
+                die("%s::my_value_at_location_store_: child not found" % cls)
+            if re.search(r"%s\s*\.template" % other, inner):
+                die("%s::my_value_at_location_store_: the scalar operand is used as an expression" % cls)
+            stores.add(re.sub(r"\s+", "", c.group(1)))
+            t = tokens_loose(inner)
+            if "operation_store" in t:
+                has2 = True
+                if "scratch [ MyScratchNum + 1 ]" not in t or not t.startswith("return scratch [ MyScratchNum ] = Op::operation_store ("):
+                    die("%s::my_value_at_location_store_ (operation_store variant) is not the modelled one: %s" % (cls, t))
+            elif not (t.startswith("return scratch [ MyScratchNum ] = operation (") or t.startswith("return operation (")):
+                die("%s::my_value_at_location_store_ is not the modelled one: %s" % (cls, t))
+        if len(stores) != 1:
+            die("%s::my_value_at_location_store_ variants disagree: %s" % (cls, stores))
+        pr = Parser(tokens("<" + stores.pop() + ">", cls + " store"), cls + " store")
+        a, sx = pr.tmpl_pair()
+        store = "(%s, %s)" % (coq_a(a, cls), coq_s(sx, cls))
+        # the enable_if conditions of the storing variants: which store_result values write scratch[MyScratchNum+1]
+        conds = re.findall(r"enable_if\s*<\s*\(?\s*StoreResult\s*(==|>)\s*(\d)\s*\)?\s*,\s*Type\s*>\s*::\s*type\s+my_value_at_location_store_", body)
+        conds = sorted(conds)
+        if has2:
+            if conds != [("==", "0"), ("==", "1"), ("==", "2")]:
+                die("%s: my_value_at_location_store_ variants %s" % (cls, conds))
+        elif conds != [("==", "0"), (">", "0")]:
+            die("%s: my_value_at_location_store_ variants %s" % (cls, conds))
+        val = None
+        for params, inner in functions(body, "my_value_stored_"):
+            t = tokens_loose(inner)
+            if t == "return scratch [ MyScratchNum ] ;":
+                continue
+            c = re.search(r"%s\s*\.template\s+value_at_location_\s*<([^>]*)>" % child, inner)
+            if not c:
+                die("%s::my_value_stored_ is not the modelled one: %s" % (cls, t))
+            pr = Parser(tokens(c.group(1), cls + " value"), cls + " value")
+            val = coq_a(pr.idx(), cls + " value")
+        if val is None:
+            die("%s::my_value_stored_ (StoreResult==0) not found" % cls)
+        # calc_gradient_ -> calc_X_<A,S>(stack, child, loc, scratch[, multiplier]) -> Op::template calc_X<A,S>(stack, l, r, loc, scratch[, multiplier])
+        fw = {}
+        for params, inner in functions(body, "calc_gradient_"):
+            with_m = "multiplier" in params
+            t = tokens_loose(inner)
+            mm = re.fullmatch(r"%s_ < (.*) > \( stack , %s , loc , scratch( , multiplier)? \) ;" % (calc, child), t)
+            if not mm or bool(mm.group(2)) != with_m:
+                die("%s::calc_gradient_ is not the modelled one: %s" % (cls, t))
+            if re.sub(r"\s+", "", mm.group(1)) != "MyArrayNum,MyScratchNum":
+                die("%s::calc_gradient_ forwards <%s>" % (cls, mm.group(1)))
+        n_act = 0
+        for params, inner in functions(body, calc + "_"):
+            t = tokens_loose(inner)
+            if t == "":
+                continue
+            with_m = "multiplier" in params
+            if child == "right":
+                args = r"stack , Scalar < L > \( left \. value \( \) \) , right , loc , scratch"
+            else:
+                args = r"stack , left , Scalar < R > \( right \. value \( \) \) , loc , scratch"
+            mm = re.fullmatch(r"Op:: ?template %s < (.*) > \( %s( , multiplier)? \) ;" % (calc, args), t.replace("Op::template", "Op:: template"))
+            if not mm or bool(mm.group(2)) != with_m:
+                die("%s::%s_ is not the modelled one: %s" % (cls, calc, t))
+            pr = Parser(tokens("<" + mm.group(1) + ">", cls + " forward"), cls + " forward")
+            a, sx = pr.tmpl_pair()
+            fw[with_m] = "(%s, %s)" % (coq_a(a, cls), coq_s(sx, cls))
+            n_act += 1
+        if set(fw) != {True, False} or n_act != 2:
+            die("%s::%s_ overloads: %s" % (cls, calc, fw))
+        out[cls] = "(mkSNode %s %s %s %s %s)" % (store, val, fw[False], fw[True], "true" if has2 else "false")
+    # which policies are wrapped (macro instantiations and the two hand-written operator/ overloads)
+    K = {"Add": "KAdd", "Subtract": "KSub", "Multiply": "KMul", "Divide": "KDiv", "Pow": "KPow", "Atan2": "KAtan2", "Max": "KMax", "Min": "KMin"}
+    code = strip_comments(btext)
+    mac = re.search(r"#define\s+ADEPT_DEFINE_OPERATION\(NAME,\s*OPERATOR\)(.*?)\n\n", code, flags=re.S)
+    if not mac or "BinaryOpScalarLeft" not in mac.group(1) or "BinaryOpScalarRight" in mac.group(1):
+        die("ADEPT_DEFINE_OPERATION does not define exactly the scalar-left form")
+    mac = re.search(r"#define\s+ADEPT_DEFINE_SCALAR_RHS_OPERATION\(NAME,\s*OPERATOR\)(.*?)\n\n", code, flags=re.S)
+    if not mac or "BinaryOpScalarRight" not in mac.group(1):
+        die("ADEPT_DEFINE_SCALAR_RHS_OPERATION does not define the scalar-right form")
+    left_ops, right_ops = [], []
+    for mm in re.finditer(r"^\s*ADEPT_DEFINE_OPERATION\((\w+),\s*[\w+\-*/]+\)", code, flags=re.M):
+        if mm.group(1) not in K:
+            die("ADEPT_DEFINE_OPERATION(%s): unknown policy" % mm.group(1))
+        if K[mm.group(1)] not in left_ops:
+            left_ops.append(K[mm.group(1)])
+    for mm in re.finditer(r"^\s*ADEPT_DEFINE_SCALAR_RHS_OPERATION\((\w+),\s*[\w+\-*/]+\)", code, flags=re.M):
+        if mm.group(1) not in K:
+            die("ADEPT_DEFINE_SCALAR_RHS_OPERATION(%s): unknown policy" % mm.group(1))
+        if K[mm.group(1)] not in right_ops:
+            right_ops.append(K[mm.group(1)])
+    # hand-written expression / scalar: every explicit BinaryOpScalarRight<..., L, internal::POLICY, ...> return type with its activity condition
+    for mm in re.finditer(r"enable_if<internal::is_not_expression<RType>::value\s*&&\s*\(([^)]*)\)\s*,\s*internal::BinaryOpScalarRight<[^;{]*?L,\s*internal::(\w+),", code, flags=re.S):
+        cond, pol = re.sub(r"\s+", "", mm.group(1)), mm.group(2)
+        if pol not in K:
+            die("operator/ (scalar right): unknown policy " + pol)
+        if cond == "internal::is_floating_point<RType>::value||L::is_active":
+            if K[pol] not in right_ops:
+                right_ops.append(K[pol])       # may be active
+        elif cond == "!internal::is_floating_point<RType>::value&&!L::is_active":
+            pass                               # passive only: store_result is 0 whatever the policy
+        else:
+            die("operator/ (scalar right): condition '%s' is not a modelled one" % cond)
+    if not left_ops or not right_ops:
+        die("no scalar-left / scalar-right instantiations found")
+    # struct Scalar: no arrays, no scratch, inactive, value_stored_ returns the value
+    et = strip_comments(open(os.path.join(repo, "include/adept/Expression.h")).read())
+    m = re.search(r"struct\s+Scalar\b", et)
+    if not m:
+        die("struct Scalar not found")
+    sb, _ = block_after(et, m.start())
+    for name, want in (("n_scratch", "0"), ("n_arrays", "0"), ("is_active", "false"), ("n_active", "0")):
+        mm = re.search(r"static\s+const\s+(?:int|bool)\s+%s\s*=([^;]*);" % name, sb)
+        if not mm or re.sub(r"\s+", "", mm.group(1)) != want:
+            die("Scalar::%s is not %s" % (name, want))
+    for fn in ("value_stored_", "value_at_location_store_", "value_at_location_"):
+        ds = functions(sb, fn)
+        if len(ds) != 1 or tokens_loose(ds[0][1]) != "return val_ ;":
+            die("Scalar::%s does not return the value" % fn)
+    return out["BinaryOpScalarLeft"], out["BinaryOpScalarRight"], left_ops, right_ops
+
+
 def noalias_rules(repo):
     """struct NoAlias (noalias.h): the template arguments with which it forwards to its argument"""
     text = strip_comments(open(os.path.join(repo, "include/adept/noalias.h")).read())
@@ -479,6 +630,13 @@ def main():
     out.append("Definition nodes : node_rules := mkNode %s %s %s %s\n  %s\n  %s." % (sl, sr_, vr, us, ur, urm))
     out.append("(* noalias(e): template arguments of value_at_location_store_, value_stored_, calc_gradient_, calc_gradient_(multiplier) *)")
     out.append("Definition noalias_forwards : list (aidx * sidx) := [%s]." % "; ".join(noalias_rules(REPO)))
+    snl, snr, lops, rops = scalar_nodes(btext, REPO)
+    out.append("(* BinaryOpScalarLeft / BinaryOpScalarRight: child storage, child value, template arguments handed to the policy (without / with multiplier), operation_store variant present *)")
+    out.append("Definition scalar_left_node : scalar_node := %s." % snl)
+    out.append("Definition scalar_right_node : scalar_node := %s." % snr)
+    out.append("(* policies instantiated with a passive scalar on the left / on the right of a possibly active expression *)")
+    out.append("Definition scalar_left_ops : list bkind := [%s]." % "; ".join(lops))
+    out.append("Definition scalar_right_ops : list bkind := [%s]." % "; ".join(rops))
     tab = unary_table(utext)
     if len(tab) < 30:
         die("only %d unary functions found" % len(tab))
